@@ -5,6 +5,7 @@ import Bmc.Lemmas.Rakp2Refine
 import Bmc.Lemmas.V1Refine
 import Bmc.Wire.Rakp4
 import Bmc.Wire.Selector
+import Bmc.Lemmas.SetupBridge
 /-! # C07 (session setup: Open Session Response, RAKP 1/2/4, session selector, v1.5 session header):
     decoding the specification's encoding of any field values yields those values; short input is rejected -/
 namespace Bmc.Proofs.C07
@@ -325,5 +326,37 @@ theorem v1_auth_short (b : Bytes) (ha : b.getD 0 0 ≠ 0) (h : b.length < 26) : 
   by_cases h10 : b.length < 10
   · simp only [h10, if_true]
   · simp only [h10, this, h, if_true, if_false, Bool.false_eq_true]
+
+-- the decoders the handshake runs are these decoders --------------------------------------------------------------------
+
+open Bmc.Lemmas.SetupBridge in
+/-- the Open Session Response decoder inside the HANDSHAKE model (`Proto/Handshake.lean`: `stepOpen`) is the decoder
+    specified above, with `Contents` forgotten: for every Go slice its outcome is the pure decoder's on the visible
+    bytes — so every `openSessionRsp_*` theorem of this file governs what session establishment accepts -/
+theorem handshake_openSessionRsp (d : GoSlice) :
+    Wire.OpenSessionRsp.decodeGo {} d = (R.ofExcept (Setup.OpenSessionRsp.decode d.vis)).map forgetOpen := by
+  have h := openSessionRsp_bridge {} d
+  rw [Setup.OpenSessionRsp.decodeGo_refines] at h
+  exact h
+
+open Bmc.Lemmas.SetupBridge in
+/-- likewise RAKP Message 4 (`stepRakp4`) -/
+theorem handshake_rakp4 (d : GoSlice) :
+    Wire.RAKP4.decodeGo {} d = (R.ofExcept (Setup.RAKP4.decode d.vis)).map
+      (fun r => { tag := r.tag, status := r.status, consoleSessionID := r.consoleSID, icv := r.icv }) := by
+  have h := rakp4_bridge {} {} d
+  rw [Setup.RAKP4.decodeGo_refines] at h
+  exact h
+
+/-- and a specification-conforming successful Open Session Response reaches the handshake as its field values -/
+theorem handshake_openSessionRsp_spec (tag mp : UInt8) (csid bsid : Nat) (a i c : Option UInt8)
+    (h : (Spec.OpenSessionRsp.ok tag mp csid bsid a i c).wf) :
+    Wire.OpenSessionRsp.decodeGo {} (GoSlice.ofBytes (Spec.OpenSessionRsp.ok tag mp csid bsid a i c).encode) =
+      .ok { tag := tag, status := 0, maxPriv := mp, consoleSessionID := csid, bmcSessionID := bsid
+            authWild := (algView a).wildcard, auth := (algView a).algorithm
+            integWild := (algView i).wildcard, integ := (algView i).algorithm
+            confWild := (algView c).wildcard, conf := (algView c).algorithm } := by
+  rw [handshake_openSessionRsp, GoSlice.vis_ofBytes, openSessionRsp_decode_spec _ h]
+  rfl
 
 end Bmc.Proofs.C07
